@@ -889,13 +889,29 @@ put_char_space(struct caption *cc, cc_channel *ch)
 static inline cc_channel *
 switch_channel(struct caption *cc, cc_channel *ch, int new_chan)
 {
+	int field2 = (new_chan >> 1) & 1;
+	cc_channel *curr = &cc->channel[(cc->curr_chan[field2] & 5)
+					+ field2 * 2];
+
 	word_break(cc, ch, 1); // we leave for a number of frames
+
+	/* The channel we leave is the current channel of this field,
+	   not necessarily the one the control code addresses
+	   (T1 -> CC1, CC1 -> CC2). The channel we return to may have
+	   received control codes while it was not current. */
+	if (curr != ch && curr->mode)
+		word_break(cc, curr, 1);
+
+	ch = &cc->channel[new_chan];
+
+	if (ch != curr && ch->mode)
+		word_break(cc, ch, 1);
 
 	/* Each field is a data stream of its own and
 	   has its own current channel. */
-	cc->curr_chan[(new_chan >> 1) & 1] = new_chan;
+	cc->curr_chan[field2] = new_chan;
 
-	return &cc->channel[new_chan];
+	return ch;
 }
 
 static void
